@@ -148,6 +148,12 @@ def weights(rng, mode_name, rules, V):
     if mode_name == "poly":
         return [[[1, [k]]] for k in range(len(rules))]
     ws = _float_weights(rng, rules, V)
+    if mode_name == "log" and rng.random() < 0.4:
+        # log-probabilities exist to represent very small probabilities: scale
+        # everything down (convergence only improves); results are compared in
+        # log space, i.e. to relative accuracy
+        k = rng.choice([3, 5, 8])
+        ws = [float(f"{w * 10.0 ** -k:.3e}") for w in ws]
     if mode_name == "expect":
         # (p, r): r >= 0 arbitrary; a few rules carry (0, r) - no mass, but a
         # non-zero first-order part (a legitimate element of the semiring)
